@@ -10,8 +10,8 @@ COMMON_NOTE = ("Trusted: Coq 8.16.1 kernel (+ vm_compute), extraction with ExtrO
 
 CLAIMS = {
  "C01": dict(
-    text="Coq theorems (all inputs, no bound): the model lexer returns a token list for every byte string; the model parser returns a result (never Fault, never out of fuel; recursion depth linear in the input) for every byte string; the numeral classifier, the annotation line/fragment parser, the class traversal and alias/element-type resolution terminate without fault for every input/workspace (the crashes repaired by fix: commits are regression theorems). "
-         "Models tied to the code by differential correspondence (tokens, ASTs with every Loc, error lists) plus a server robustness leg (real server in a subprocess, crash/timeout watchdog). Partial: Go stack limits, handlers outside the modelled cores and wall-clock time are not in the model (DESIGN 5/C01, 9).",
+    text="Coq theorems (all inputs, no bound): the model lexer returns a token list for every byte string; the model parser returns a result (never Fault, never out of fuel; recursion depth linear in the input) for every byte string; the numeral classifier, the annotation line/fragment parser, the class traversal and alias/element-type resolution terminate without fault for every input/workspace (the crashes repaired by fix: commits are regression theorems). Every modelled core is tied to the code inside THIS check: parser legs, annotation leg (garbage and deeply nested lines, quote-edge constants), class-hierarchy leg (cycles, diamonds, alias chains through the real server). "
+         "Models tied to the code by differential correspondence (tokens, ASTs with every Loc, error lists) plus a server robustness leg (real server in a subprocess, crash/timeout watchdog; regex-hostile settings, odd statement shapes, unsaved damage) - that leg is a search, not a proof; it found two further crashes (ReferFrameFiles names in regexps, (\"_G\").x = 1), both repaired. Partial: Go stack limits, handlers outside the modelled cores and wall-clock time are not in the model (DESIGN 5/C01, 9).",
     design="5/C01", technique="Coq proof (fuel/measure arguments, Hoare-style post-conditions over the parser monad) + extracted-model correspondence + subprocess robustness leg"),
  "C02": dict(
     text="Coq theorems about an executable model of offsetForStartAndEnd / ApplyContentChanges / the didOpen-didChange-didSave-didClose cache machine: "
@@ -44,7 +44,7 @@ CLAIMS = {
     text="Coq theorems: the global merge is permutation-invariant exactly when the minimal definition is unique (C09_merge_perm*, winner = a minimal element, every minimal element reachable), best-match module choice is permutation-invariant under a unique maximal score (C09_best_match_unique), arrival order of per-file results and the SET of a scope's diagnostics are order-free; refutations with witnesses for ties. Correspondence: exported merge/best-match functions called in explicit orders, whole-server repetitions (set-valued observables, impl subset of model).",
     design="5/C09", technique="Coq proof (Permutation induction, minimality) + extracted-model correspondence with set-valued observables + repeated fresh-server runs"),
  "C10": dict(
-    text="Coq theorems about a labelled transition system of the jrpc2 dispatcher (queue, concurrency 4, notification barrier, one mutex): lock discipline implies mutual exclusion and race freedom for all reachable states, no deadlock, serialisability for handlers with one critical section; the handler table is REGENERATED from the Go source by the translator on every run and C10_handlers_locked / C10_only_known_split are re-proved by vm_compute over it. "
+    text="Coq theorems about a labelled transition system of the jrpc2 dispatcher (queue, concurrency 4, notification barrier, one mutex): lock discipline implies mutual exclusion and race freedom for all reachable states, no deadlock, serialisability for handlers with one critical section; the handler table is REGENERATED from the Go source by the translator on every run and C10_handlers_locked / C10_only_known_split / C10_background_unlocked are re-proved by vm_compute over it; since the fix: commits 1b70b29 and 4ebf311 all three exception lists are empty and C10_real_race_free (no reachable state of the real handler table has a data race on the modelled state) holds. "
          "Correspondence/search: real server built with -race flooded with overlapping schedules derived from model runs. Partial: locks below the request mutex and the callee-effect table are trusted.",
     design="5/C10", technique="Coq proof (invariant over reachable states; vm_compute over translator-generated handler table) + race-detector schedules against the real server"),
  "C11": dict(
@@ -55,7 +55,7 @@ CLAIMS = {
     design="5/binder", technique="Coq proof (clauses 3-4 for all workspaces) + refutation witnesses + extracted relation checked on the real server's answers"),
  "C13": dict(
     text="Coq theorems about an executable model of the UTF-8 detector / converter (for all texts: identity on valid UTF-8 without 2-byte characters, exact characterisation of the detector, structural soundness; refutation witness for 2-byte characters = known finding) "
-         "and of comment attachment; model tied to the code by differential correspondence (implementation vs. model extracted to OCaml) on every run.",
+         "and of the comment map, attachment lookup and both clean-ups (C13_gap_entries: grouping of comment lines per gap; C13_comment_attach: lookup = spec under the boolean attach_guard; C13_cleanup*: exact characterisation), refutation for a block starting with an empty line; model tied to the code by differential correspondence on every run, incl. hover text (label + documentation) through the real server. Partial: whole-file attachment composes these by correspondence only; labels modelled for the forms of the quantifier.",
     design="5/C13", technique="Coq proof (induction over code points; finite byte sweeps by vm_compute lifted with forallb_forall) + extracted-model correspondence"),
  "C14": dict(
     text="Coq theorem for every workspace and cursor: every completion label is a global/undefined name of the workspace or a variable of a scope that CONTAINS the cursor declared at or before it - never a later or non-enclosing local (C14_labels_only_visible); completeness is stated (C14_complete_full) and refuted in class B5 with a witness. Correspondence: completion labels of the real server at every prefix end of every identifier (unique-name programs decide; ordinary programs correspondence only).",
@@ -64,7 +64,7 @@ CLAIMS = {
     text="Coq theorems: the class traversal terminates and its member set equals the reflexive-transitive closure of parent/alias edges for every well-formed type map (C15_members_eq_closure, sound+complete, cycles and diamonds included), element/value type resolution is exact and terminating for the repaired code (C15_fixed_*); refutations (same-file shadowing, union order) listed. Correspondence: generated class graphs through completion/definition of the real server in a subprocess.",
     design="5/C15", technique="Coq proof (closure = traversal by induction with visited-set invariant; measure for termination) + extracted-model correspondence"),
  "C16": dict(
-    text="Coq theorems: parse(show t) = t for every documented type of unbounded depth and every documented statement form (C16_type_roundtrip, C16_stat_roundtrip*), trailing comment kept, a malformed line affects only itself (C16_line_isolation, C16_isolation_general), parser total; the implementation's own printer round-trips on the guarded fragment with refutations for union-under-array, fun, const. Correspondence: ParseCommentFragment / TypeConvertStr on grammar derivations and corruptions.",
+    text="Coq theorems: parse(show t) = t for every documented type of unbounded depth and every documented statement form (C16_type_roundtrip, C16_stat_roundtrip*), trailing comment kept, a malformed line affects only itself (C16_line_isolation, C16_isolation_general), parser total; nested arrays T[][].. of any depth, enum comments, Lines/Stats alignment and parentheses under [] are proved for the repaired code (4 fix: commits); the implementation's own printer round-trips on the guarded fragment with refutations for fun and const. Correspondence: ParseCommentFragment / TypeConvertStr on grammar derivations and corruptions.",
     design="5/C16", technique="Coq proof (induction on type size with positional claims; Hoare-style totality) + extracted-model correspondence"),
  "C17": dict(
     text="Coq theorems: flag lists of initialize and changeConfiguration are equal and flag i <-> type i (over translator-generated tables), the filter law shown(cfg) = filter (not excluded cfg) shown(all_on) under the special-gate guard for all configurations (2^25 by theorem), same result by all three routes, init faults iff a pattern is bad (repaired: never); refutations (five-flag gate, coupled types, dead flag, duplicate file rule) listed. Correspondence: real server under generated configurations vs filtered all-on run.",
@@ -73,7 +73,7 @@ CLAIMS = {
     text="Coq theorems: the file index after any insert/remove history equals the index of the surviving files (C18_index_refines_fixed, for the repaired RemoveOneFile), module resolution conforms to the documented mapping on the guarded class, type-6 iff no matching file, the three features agree under a unique best match, answers react to create/delete; refutations (dotted path cut, dofile without suffix, created file not re-analysed, ./ prefix) listed. Correspondence: directory trees and event histories through the real server and the exported index functions.",
     design="5/C18", technique="Coq proof (refinement of the index to a set of files by induction over histories; string lemmas) + extracted-model correspondence"),
  "C19": dict(
-    text="Executable Coq model of FindAllSymbol/FindAllLocalVal and the workspace symbol collection, reference declaration list (Spec/SymbolSpec.v); refutation theorem for the child range rewrite and witness lemmas (assigned function range, shadowed top local, lost member); outline and workspace/symbol answers of the real server compared with model and reference on generated files, deviations must fall in listed classes. Partial: the positive completeness/containment theorems of DESIGN are not yet proved.",
+    text="Executable Coq model of FindAllSymbol/FindAllLocalVal and the workspace symbol collection, reference declaration list (Spec/SymbolSpec.v); the child range rewrite is repaired (fix: 5912ee6; regression theorems for the deployed model) and witness lemmas (assigned function range, shadowed top local, lost member); outline and workspace/symbol answers of the real server compared with model and reference on generated files, deviations must fall in listed classes. Partial: the positive completeness/containment theorems of DESIGN are not yet proved.",
     design="5/C19", technique="Coq model + reference, refutation theorems by vm_compute; differential correspondence of documentSymbol / workspace symbol"),
  "C20": dict(
     text="Coq theorems, one per check: reported(type) <-> documented pattern at exactly that node (C20_t21/t15/t16/t13/t7/t8/t20/t5/t14/t19 iff, exact or under a stated guard with non-vacuity examples), the published reports are exactly the checks of visited nodes, each once (C20_once), visited = all nodes under the stated guard; CompExp = structural equality modulo Locs without constructors; 13 refutation witnesses computed from source text, listed as findings; C20_full_refuted. Correspondence: type 5/7/8/13/14/15/16/19/20/21 diagnostics of the real analysis on generated programs.",
